@@ -150,6 +150,8 @@ class GroupHooks(Hooks):
             if not self.inline_fees and callee.fi.module.name == 'pytezos.operation.fees':
                 return App(n, *[a for a in args if not isinstance(a, dict)], *[App('kw', k, v) for k, v in sorted(kwargs.items()) if not isinstance(v, dict)])
             if q == 'pytezos.operation.forge.forge_operation':
+                if isinstance(args[0], dict):
+                    it.event('measured', _idx(args[0]), dict(args[0]))  # the content whose size is being priced, as it is at that moment
                 return Sym('FORGED_' + _idx(args[0]), 'bytes')
         if isinstance(callee, Builtin) and callee.name == 'callable' and args and isinstance(args[0], (Sym, App)):
             return False  # values obtained from the node / the key are data, not callables
@@ -169,11 +171,11 @@ def _idx(content: Any) -> str:
     return '?'
 
 
-def mk_group(n_contents: int = 2, kind: str = 'transaction', counter: Any = '0') -> Obj:
+def mk_group(n_contents: int = 2, kind: str = 'transaction', counter: Any = '0', extra: Optional[Dict[str, Any]] = None) -> Obj:
     ctx = Obj(CTX, {'counter': None, 'key': Sym('key'), 'shell': Sym('shell'), 'origination_index': 1, 'tmp_big_map_index': 0,
                     'tmp_sapling_index': 0, 'alloc_big_map_index': 0, 'alloc_sapling_index': 0, 'balance_update': 0,
                     'big_maps': {}, 'tzt_big_maps': {}, 'global_constants': {}})
     contents = [{'kind': kind, 'source': '', 'fee': '0', 'counter': counter, 'gas_limit': '0', 'storage_limit': '0', 'amount': '1',
-                 'destination': 'tz1dest', '_tag': i} for i in range(n_contents)]
+                 'destination': 'tz1dest', '_tag': i, **(extra or {})} for i in range(n_contents)]
     return Obj(G, {'context': ctx, 'contents': contents, 'protocol': None, 'chain_id': None, 'branch': None, 'signature': Sym('signature', 'str'),
                    'opg_hash': None, 'opg_result': None})
